@@ -34,6 +34,7 @@ sets = [
     ("C55canon", lambda: prolog.replay_canonical([])),
     ("numcmp", lambda: prolog.replay_number_comparisons([], "C04")),
     ("C10", lambda: prolog.replay_unification([])),
+    ("C14", lambda: prolog.replay_sorting([])),
 ]
 only = sys.argv[1:]
 bad = 0
